@@ -1,7 +1,48 @@
 (* C19 - Bencode encode/decode round-trips and the decoder rejects garbage safely.
-   Statements only; proofs are in Proofs/BencodeP.v. *)
+   Statements only; proofs are in Proofs/BencodeP.v.
+
+   [bencode] emits a dictionary's entries in the order of the list that
+   represents it; Go ranges over a map in arbitrary order, and the theorems
+   hold for every list, i.e. for every emission order.  [canonb v]: integers
+   within int64, byte strings, distinct keys in every dictionary. *)
 From Chihaya Require Import Model.Bencode Proofs.BencodeP.
 Open Scope Z_scope.
+
+(* round trip: any canonical value tree (any size, any nesting), any trailing
+   bytes, any fuel from the length of the encoding upwards *)
+Theorem C19_bdecode_bencode : forall v rest fuel,
+  canonb v = true -> (length (bencode v) <= fuel)%nat ->
+  bdecode fuel (bencode v ++ rest) = Ok v rest.
+Proof. exact bdecode_bencode. Qed.
+Print Assumptions C19_bdecode_bencode.
+
+(* for all input bytes: a value or an error; no panic, and no out-of-fuel
+   artefact once the fuel exceeds the input length *)
+Theorem C19_bdecode_total : forall fuel s,
+  (length s < fuel)%nat ->
+  (exists v rest, bdecode fuel s = Ok v rest) \/ bdecode fuel s = Err.
+Proof. exact bdecode_total. Qed.
+Print Assumptions C19_bdecode_total.
+
+Theorem C19_bdecode_never_panics : forall fuel s, bdecode fuel s <> Panic.
+Proof. exact bdecode_never_panics. Qed.
+Print Assumptions C19_bdecode_never_panics.
+
+(* allocation accounting: string storage never exceeds the bytes consumed
+   (success) / the bytes supplied plus one 4096-byte reader buffer (failure) *)
+Theorem C19_bdecode_alloc_bounded : forall fuel s,
+  0 <= balloc fuel s <= Z.of_nat (length s) + 4096 /\
+  forall v rest, bdecode fuel s = Ok v rest ->
+                 balloc fuel s + Z.of_nat (length rest) <= Z.of_nat (length s).
+Proof. exact bdecode_alloc_bounded. Qed.
+Print Assumptions C19_bdecode_alloc_bounded.
+
+(* decoding a canonical encoding stores exactly the value's string bytes *)
+Theorem C19_balloc_bencode : forall v rest fuel,
+  canonb v = true -> (length (bencode v) <= fuel)%nat ->
+  balloc fuel (bencode v ++ rest) = strbytes v.
+Proof. exact balloc_bencode. Qed.
+Print Assumptions C19_balloc_bencode.
 
 (* the decoder before fix F9 *)
 Theorem C19_bdecode_legacy_negative_len_refuted :
